@@ -88,7 +88,7 @@ def required_counters(tier):
 
 # ---------------------------------------------------------------------------
 # generator: structured number tokens
-def dec_body(rng, ax, sig=None):
+def dec_body(rng, ax, sig=None, plain=False):
     """unsigned plain-decimal text for ax >= 0: no exponent, never a trailing dot."""
     if ax == 0:
         return rng.choice(['0', '0', '0.0', '0.000'])
@@ -99,12 +99,24 @@ def dec_body(rng, ax, sig=None):
         body = body.rstrip('0').rstrip('.')
     if set(body) <= set('0.'):          # rounded to zero
         body = f'{ax:.15f}'.rstrip('0')
+    r = 1.0 if plain else rng.random()
+    if r < 0.08:
+        # the same number in exponent notation (what the DS9 writer itself prints for very small / large values)
+        from decimal import Decimal
+        e = format(Decimal(body), 'e')
+        if rng.random() < 0.3:
+            e = e.replace('e-', 'E-').replace('e+', 'E+')
+        if rng.random() < 0.5:
+            e = e.replace('e+', 'e').replace('E+', 'E')
+        body = e
+    elif r < 0.14 and body.startswith('0.'):
+        body = body[1:]                 # a leading-dot decimal
     return body
 
 
-def t_num(rng, x, suf='', sig=None, plus=0.06):
+def t_num(rng, x, suf='', sig=None, plus=0.06, plain=False):
     sg = '-' if x < 0 else ('+' if rng.random() < plus else '')
-    return {'n': 'num', 'sg': sg, 'body': dec_body(rng, abs(x), sig), 'suf': suf, 'up': rng.random() < 0.2}
+    return {'n': 'num', 'sg': sg, 'body': dec_body(rng, abs(x), sig, plain), 'suf': suf, 'up': rng.random() < 0.2}
 
 
 def t_sexa(rng, kind, x, limit):
@@ -153,9 +165,9 @@ def lon_token(rng, frame, lon):
     if k == 'bare':
         return t_num(rng, lon)
     if k == 'd':
-        return t_num(rng, lon, 'd')
+        return t_num(rng, lon, 'd', plain=True)
     if k == 'r':
-        return t_num(rng, math.radians(lon), 'r', sig=rng.choice([6, 9, 13]))
+        return t_num(rng, math.radians(lon), 'r', sig=rng.choice([6, 9, 13]), plain=True)
     if k == 'colon':
         return t_sexa(rng, 'colon', lon / 15.0, 24) if eq else t_sexa(rng, 'colon', lon, 360)
     if k == 'hms':
@@ -168,10 +180,10 @@ def lat_token(rng, lat):
     if k == 'bare':
         return t_num(rng, lat)
     if k == 'd':
-        return t_num(rng, lat, 'd')
+        return t_num(rng, lat, 'd', plain=True)
     if k == 'r':
         lat = max(-89.9, min(89.9, lat))
-        return t_num(rng, math.radians(lat), 'r', sig=rng.choice([6, 9, 13]))
+        return t_num(rng, math.radians(lat), 'r', sig=rng.choice([6, 9, 13]), plain=True)
     return t_sexa(rng, 'colon' if k == 'colon' else 'dms', lat, 90)
 
 
